@@ -32,6 +32,9 @@ Section fs.
   Definition read (m : fs) (p : path) : option C :=
     match m !! p with Some (File c) => Some c | _ => None end.
 
+  (** the part of a file system at or below [t] *)
+  Definition restrict_under (t : path) (m : fs) : fs := filter (λ e, under t e.1) m.
+
   (** [std::fs::remove_dir_all]: the argument must be a directory; it and everything below it go. *)
   Definition wipe (t : path) (m : fs) : fs := filter (λ e, ¬ under t e.1) m.
   Definition remove_dir_all (t : path) (m : fs) : option fs :=
@@ -63,9 +66,6 @@ Section fs.
         end
     end.
 
-  (** the part of a file system at or below [t] *)
-  Definition restrict_under (t : path) (m : fs) : fs := filter (λ e, under t e.1) m.
-
   (** a tree given relative to its root, placed at [t] *)
   Definition place (t : path) (tr : fs) : fs := kmap (app t) tr.
 
@@ -79,16 +79,17 @@ Section fs.
   (** entries moved below [t] *)
   Definition shift (t : path) (e : path * node) : path * node := (t ++ e.1, e.2).
 
-  (** files (not directories) strictly below directory [d], as paths relative to [d] *)
+  (** files (not directories) strictly below directory [d], as paths relative to [d]; a function
+      of the part of the file system under [d] only *)
   Definition files_below (d : path) (m : fs) : list (list string) :=
     omap (λ e, match e.2 with
                | File _ => if decide (under d e.1) then Some (drop (length d) e.1) else None
                | Dir => None
-               end) (map_to_list m).
+               end) (map_to_list (restrict_under d m)).
   (** is there a directory strictly below [d] ? *)
   Definition is_dirnode (n : node) : bool := match n with Dir => true | File _ => false end.
   Definition has_subdir (d : path) (m : fs) : bool :=
-    bool_decide (Exists (λ e, is_dirnode e.2 ∧ under d e.1 ∧ e.1 ≠ d) (map_to_list m)).
+    bool_decide (Exists (λ e, is_dirnode e.2 ∧ under d e.1 ∧ e.1 ≠ d) (map_to_list (restrict_under d m))).
 
   (** well-formed: the root is a directory and every entry's parent is a directory *)
   Definition wf_fs (m : fs) : Prop :=
